@@ -45,6 +45,7 @@ type c07conn struct {
 	hs       bool   // sent at least one successful handshake
 	lastType string // type and id of the latest successful handshake of any type
 	lastID   int64
+	lastActive time.Duration // simulated time of the connect or of the latest heartbeat sent
 }
 
 func (c *c07conn) name() string { return c.cl.Name }
@@ -53,7 +54,7 @@ func init() {
 	Register(&Scenario{
 		ID:    "C07",
 		Level: "exploration",
-		Rule: "each run wires a real node with MaxControlConnections in {0,1,2,3}, heartbeat timeout 60 s / sweep 15 s on the simulated clock, and draws 5-25 operations over 2-3 client ids and up to 6 transports: connect, handshake as X (control or tunnel type), handshake again as Y on the same connection, duplicate login of X on another connection, KickOldControlConnection, heartbeat, silence longer than the heartbeat timeout, server-side CloseConnection, client-side close (EOF in the read loop). Sequential mode (2/3 of runs) lets every operation settle and then checks: every by-client lookup is nil or a connection that is in the connection map, authenticated, carries that client id and whose transport is open; every closed or evicted transport is returned by no lookup; after everything is closed all counts are zero. Concurrent mode runs 2-3 actors simultaneously with statement-level interleavings, checks lookup well-formedness at every observation and the same end state. " +
+		Rule: "each run wires a real node with MaxControlConnections in {0,1,2,3}, heartbeat timeout 60 s / sweep 15 s on the simulated clock, and draws 5-25 operations over 2-3 client ids and up to 6 transports: connect, handshake as X (control or tunnel type), handshake again as Y on the same connection, duplicate login of X on another connection, KickOldControlConnection, heartbeat, silence longer than the heartbeat timeout, a login timed to the very sweep instant that finds the connection silent, server-side CloseConnection, client-side close (EOF in the read loop). Sequential mode (2/3 of runs) lets every operation settle and then checks: every by-client lookup is nil or a connection that is in the connection map, authenticated, carries that client id and whose transport is open; every closed or evicted transport is returned by no lookup; after everything is closed all counts are zero. Concurrent mode runs 2-3 actors simultaneously with statement-level interleavings, checks lookup well-formedness at every observation and the same end state. " +
 			"Non-trivial: at least one duplicate login, re-authentication, kick, sweep eviction or cap eviction happened; distinct = distinct schedule hashes.",
 		Real: []string{"internal/protocol/session SessionManager, ClientRegistry, connection lifecycle, control connection manager, handshake handler, stale sweep", "internal/protocol/adapter BaseAdapter read loop and cleanup", "internal/stream StreamProcessor", "cloud control + client state service on the memory backend"},
 		Stub: []string{"transport: simnet", "auth handler: approves the claimed id (C03 covers proof of identity)"},
@@ -89,6 +90,7 @@ func c07Run(w *simrt.World, tier string) {
 		st.Filter = func(op, key string) bool { return op == "Delete" || op == "Set" }
 		w.Probe("store-faults-enabled")
 	}
+	t0 := w.Now() // the sweep ticker fires at t0 + k*15 s
 	ids := []int64{1001, 1002, 1003}[:2+c.Intn(2, "nids")]
 	var conns []*c07conn
 	var lastHS *c07conn
@@ -100,6 +102,7 @@ func c07Run(w *simrt.World, tier string) {
 	newConn := func() *c07conn {
 		nconn++
 		cc := &c07conn{cl: node.Connect(fmt.Sprintf("t%d", nconn-1), fmt.Sprintf("10.2.0.%d:5000", nconn), simnet.LinkConfig{})}
+		cc.lastActive = w.Now()
 		conns = append(conns, cc)
 		return cc
 	}
@@ -213,6 +216,12 @@ func c07Run(w *simrt.World, tier string) {
 				viol("C07:evicted:transport-left-open", "%s: the session forgot %s (%s) entirely but its transport is still open\n%s", when, cc.name(), cc.srvID, strings.Join(hist, "\n"))
 				return false
 			}
+			// a connection whose latest successful handshake made it a control connection and which the control
+			// registry no longer holds has been evicted (superseded, kicked, swept): its transport must be closed
+			if cc.lastType == "control" && !inReg {
+				viol("C07:evicted:transport-left-open:dropped-from-control-registry", "%s: %s (%s) completed a control handshake as client %d, the control registry no longer holds it, but its transport is still open (in connection map: %v)\n%s", when, cc.name(), cc.srvID, cc.lastID, inMap, strings.Join(hist, "\n"))
+				return false
+			}
 		}
 		return true
 	}
@@ -285,8 +294,8 @@ func c07Run(w *simrt.World, tier string) {
 		} else {
 			cc = conns[w.Draw(len(conns), "conn")]
 		}
-		kind := w.Draw(9, "op")
-		if !transportOpen(cc) && kind < 6 {
+		kind := w.Draw(10, "op")
+		if !transportOpen(cc) && (kind < 6 || kind == 9) {
 			if len(conns) < 6 {
 				cc = newConn()
 				log("connect %s", cc.name())
@@ -299,16 +308,29 @@ func c07Run(w *simrt.World, tier string) {
 			cc = lastHS // close the connection another actor is handshaking on right now
 			w.Probe("close-racing-handshake")
 		}
-		if kind <= 3 {
+		if kind <= 3 || kind == 9 {
 			lastHS = cc
 		}
 		switch kind {
+		case 9:
+			// a late login racing the sweep: wait for the first sweep instant at which this connection
+			// counts as silent for longer than the heartbeat timeout, and log in at that very instant
+			due := cc.lastActive + 60*time.Second
+			k := (due-t0)/(15*time.Second) + 1
+			if at := t0 + k*15*time.Second; at > w.Now() {
+				w.Sleep(at - w.Now())
+			}
+			log("%s logs in at the sweep instant that finds it silent", cc.name())
+			w.Probe("login-racing-sweep")
+			interesting = true
+			handshake(cc, id, "control")
 		case 0, 1, 2:
 			handshake(cc, id, "control")
 		case 3:
 			handshake(cc, id, "tunnel")
 		case 4:
 			err := cc.cl.Send(packet.Heartbeat, nil)
+			cc.lastActive = w.Now()
 			log("%s heartbeat err=%v", cc.name(), err)
 		case 5:
 			cc.cl.Close()
